@@ -5,7 +5,7 @@ import re
 from vlib import Check, read_ndjson, write_ndjson, main, Undecided
 
 PROTOS = ["dns-udp", "dns-tcp", "dot", "doh", "doq", "dnscrypt-udp", "dnscrypt-tcp"]
-VIAS = ["udp", "tcp", "dot", "doh-post", "doh-get", "doq", "dnscrypt-udp", "dnscrypt-tcp"]
+VIAS = ["udp", "tcp", "dot", "doh-post", "doh-get", "doh-json-wire", "doq", "dnscrypt-udp", "dnscrypt-tcp"]
 TRACE_FIELDS = ("src p qopt qsize qdo qpad qka cfg hrec htc hdo full slack sent rcode hrcode wire parsed tc an rec "
                 "opt osize over odo pad ka").split()
 KIND = {
